@@ -27,7 +27,7 @@ from mc.report import Report
 META = {
     "level": "model_checking",
     "rule": (
-        "all recipes up to the tier's length over the (predicate x kind) alphabet x 5 request types x {loader,dumper}; "
+        "all recipes up to the tier's length over the (predicate x kind) alphabet x 6 request types (scalars, list, model, a recursive model with 3-level data, an unresolvable forward reference) x {loader,dumper}; "
         "states = (recipe, location, offset) reached by the chain-of-responsibility model, transitions = consults; "
         "a (recipe, request) trace is non-trivial when at least one recipe provider is consulted; each model trace is "
         "replayed on a real Retort (consult log compared event by event, composed function executed)"
@@ -50,6 +50,12 @@ class Model:
     a: Decimal
 
 
+@dataclass
+class RNode:
+    v: Decimal
+    kids: List["RNode"]
+
+
 # ---------------------------------------------------------------------------------------------------------------
 # alphabet
 
@@ -70,20 +76,35 @@ KINDS_CORE = ["plain", "decline", "chain_first"]
 KINDS_ALL = ["plain", "decline", "chain_first", "chain_last", "delegate", "pub_chain_last"]
 
 # locations (what a request is about), written as strings
-REQUESTS = ["D", "B", "L", "M"]   # Decimal, bool, List[Decimal], Model
-REQUEST_TYPES = {"D": Decimal, "B": bool, "L": List[Decimal], "M": Model}
-CHILD = {"L": "L/D", "M": "M/a"}
+REQUESTS = ["D", "B", "L", "M", "R", "U"]   # Decimal, bool, List[Decimal], Model, recursive RNode, List["Undefined"]
+REQUEST_TYPES = {"D": Decimal, "B": bool, "L": List[Decimal], "M": Model, "R": RNode, "U": List["Undefined9"]}
+# sub-locations a builtin provider requests, in request order
+CHILDREN = {"L": ["L/D"], "M": ["M/a"], "R": ["R/v", "R/kids"], "R/kids": ["R/kids/e"], "R/kids/e": ["R/kids/e/v", "R/kids/e/kids"],
+            }
+# a location that occurs a second time in its own stack is answered by a recursion stub bound to the first occurrence
+STUBS = {"R/kids/e/kids": "R/kids"}
+# locations no builtin provider can serve (an unresolvable forward reference)
+UNPROVIDABLE = {"U"}
+KIND_AT = {"D": "decimal", "L/D": "decimal", "M/a": "decimal", "R/v": "decimal", "R/kids/e/v": "decimal", "B": "bool",
+           "L": "list", "R/kids": "list", "M": "model", "R": "rnode", "R/kids/e": "rnode"}
 
 # match table written by hand from the documentation of predicates
+_LOCS = ["D", "B", "L", "L/D", "M", "M/a", "R", "R/v", "R/kids", "R/kids/e", "R/kids/e/v", "U"]
+
+
+def _row(**ones):
+    return {loc: int(loc in ones.get("at", ())) for loc in _LOCS}
+
+
 MATCH = {
-    "Decimal":    {"D": 1, "B": 0, "L": 0, "L/D": 1, "M": 0, "M/a": 1},
-    "bool":       {"D": 0, "B": 1, "L": 0, "L/D": 0, "M": 0, "M/a": 0},
-    "list":       {"D": 0, "B": 0, "L": 1, "L/D": 0, "M": 0, "M/a": 0},
-    "Sequence":   {"D": 0, "B": 0, "L": 1, "L/D": 0, "M": 0, "M/a": 0},
-    "'a'":        {"D": 0, "B": 0, "L": 0, "L/D": 0, "M": 0, "M/a": 1},
-    "P[Model].a": {"D": 0, "B": 0, "L": 0, "L/D": 0, "M": 0, "M/a": 1},
-    "~P[bool]":   {"D": 1, "B": 0, "L": 1, "L/D": 1, "M": 1, "M/a": 1},
-    "P.ANY":      {"D": 1, "B": 1, "L": 1, "L/D": 1, "M": 1, "M/a": 1},
+    "Decimal":    _row(at=("D", "L/D", "M/a", "R/v", "R/kids/e/v")),
+    "bool":       _row(at=("B",)),
+    "list":       _row(at=("L", "R/kids")),
+    "Sequence":   _row(at=("L", "R/kids")),
+    "'a'":        _row(at=("M/a",)),
+    "P[Model].a": _row(at=("M/a",)),
+    "~P[bool]":   _row(at=tuple(l for l in _LOCS if l != "B")),
+    "P.ANY":      _row(at=tuple(_LOCS)),
 }
 
 
@@ -91,16 +112,31 @@ MATCH = {
 # reference model
 
 class RefResult:
-    __slots__ = ("consults", "states", "transitions")
+    __slots__ = ("consults", "states", "transitions", "stages_at")
 
     def __init__(self):
         self.consults = []   # ordered (index, location)
         self.states = set()
         self.transitions = 0
+        self.stages_at = {}  # location -> composed stages of the request at that location (for recursion stubs)
+
+
+class _RefCannotProvide(Exception):
+    pass
 
 
 def ref_serve(recipe, loc, offset, out: RefResult):
-    """Returns the composed function as a list of stages: ints (recipe index, i.e. marker tag) or ('builtin', loc, child)."""
+    """Returns the composed function as a list of stages: ints (recipe index, i.e. marker tag), ('builtin', loc, {child: stages})
+    or ('stub', target location)."""
+    if loc in STUBS and offset == 0:
+        return [("stub", STUBS[loc])]
+    stages = _ref_serve(recipe, loc, offset, out)
+    if offset == 0:
+        out.stages_at[loc] = stages
+    return stages
+
+
+def _ref_serve(recipe, loc, offset, out: RefResult):
     i = offset
     n = len(recipe)
     while True:
@@ -108,10 +144,11 @@ def ref_serve(recipe, loc, offset, out: RefResult):
         while i < n and not MATCH[recipe[i][0]][loc]:
             i += 1
         if i >= n:
-            # the builtin recipe serves every location of this check; containers request their child location
-            child = CHILD.get(loc)
-            child_stages = ref_serve(recipe, child, 0, out) if child else None
-            return [("builtin", loc, child_stages)]
+            if loc in UNPROVIDABLE:
+                raise _RefCannotProvide(loc)
+            # the builtin recipe serves every other location of this check; containers request their child locations
+            children = {c: ref_serve(recipe, c, 0, out) for c in CHILDREN.get(loc, ())}
+            return [("builtin", loc, children)]
         kind = recipe[i][1]
         out.transitions += 1
         if not kind.startswith("pub_"):
@@ -121,7 +158,7 @@ def ref_serve(recipe, loc, offset, out: RefResult):
         if kind == "decline":
             i += 1
             continue
-        rest = ref_serve(recipe, loc, i + 1, out)
+        rest = _ref_serve(recipe, loc, i + 1, out)
         if kind == "delegate":
             return rest
         if kind in ("chain_first", "pub_chain_first"):
@@ -135,30 +172,42 @@ def _tn(x):
     return type(x).__name__
 
 
-def ref_run(stages, data, direction, calls):
+def ref_run(stages, data, direction, calls, stages_at=None):
     for st in stages:
         if isinstance(st, int):
             calls.append((st, _tn(data)))
             continue
-        _, loc, child = st
-        base = loc.split("/")[-1]
-        if base in ("D", "a"):
+        if st[0] == "stub":
+            data = ref_run(stages_at[st[1]], data, direction, calls, stages_at)
+            continue
+        _, loc, children = st
+        kind = KIND_AT[loc]
+        if kind == "decimal":
             if direction == "load":
                 if type(data) not in (str, Decimal):
                     raise _RefReject
                 data = Decimal(data)
             else:
                 data = str(data)
-        elif base == "B":
+        elif kind == "bool":
             if type(data) is not bool and direction == "load":
                 raise _RefReject
-        elif base == "L":
-            data = [ref_run(child, x, direction, calls) for x in data]
-        elif base == "M":
+        elif kind == "list":
+            (child,) = children.values()
+            data = [ref_run(child, x, direction, calls, stages_at) for x in data]
+        elif kind == "model":
+            (child,) = children.values()
             if direction == "load":
-                data = Model(a=ref_run(child, data["a"], direction, calls))
+                data = Model(a=ref_run(child, data["a"], direction, calls, stages_at))
             else:
-                data = {"a": ref_run(child, data.a, direction, calls)}
+                data = {"a": ref_run(child, data.a, direction, calls, stages_at)}
+        elif kind == "rnode":
+            cv, ck = list(children.values())
+            if direction == "load":
+                data = RNode(v=ref_run(cv, data["v"], direction, calls, stages_at),
+                             kids=ref_run(ck, data["kids"], direction, calls, stages_at))
+            else:
+                data = {"v": ref_run(cv, data.v, direction, calls, stages_at), "kids": ref_run(ck, data.kids, direction, calls, stages_at)}
     return data
 
 
@@ -167,8 +216,10 @@ class _RefReject(Exception):
 
 
 DATA = {
-    "load": {"D": "1", "B": True, "L": ["1", "2"], "M": {"a": "1"}},
-    "dump": {"D": Decimal(1), "B": True, "L": [Decimal(1), Decimal(2)], "M": Model(a=Decimal(1))},
+    "load": {"D": "1", "B": True, "L": ["1", "2"], "M": {"a": "1"},
+             "R": {"v": "1", "kids": [{"v": "2", "kids": [{"v": "3", "kids": []}]}, {"v": "4", "kids": []}]}, "U": []},
+    "dump": {"D": Decimal(1), "B": True, "L": [Decimal(1), Decimal(2)], "M": Model(a=Decimal(1)),
+             "R": RNode(Decimal(1), [RNode(Decimal(2), [RNode(Decimal(3), [])]), RNode(Decimal(4), [])]), "U": []},
 }
 
 
@@ -176,22 +227,17 @@ DATA = {
 # implementation side
 
 def _loc_name(request):
-    stack = request.loc_stack
-    locs = list(stack)
+    from adaptix._internal.provider.location import FieldLoc
+    locs = list(request.loc_stack)
     first = locs[0].type
-    if first is Decimal:
-        name = "D"
-    elif first is bool:
-        name = "B"
-    elif first is Model:
-        name = "M"
-    else:
-        name = "L"
-    if len(locs) == 1:
-        return name
-    if len(locs) == 2:
-        return CHILD[name]
-    return name + "/?" * (len(locs) - 1)
+    name = "D" if first is Decimal else "B" if first is bool else "M" if first is Model else "R" if first is RNode else \
+        "U" if first == REQUEST_TYPES["U"] else "L"
+    for loc in locs[1:]:
+        if loc.is_castable(FieldLoc):
+            name += "/" + loc.field_id
+        else:
+            name += "/D" if name == "L" else "/e"
+    return name
 
 
 class Probe(Provider):
@@ -258,6 +304,8 @@ def _norm(x):
         return [_norm(i) for i in x]
     if isinstance(x, dict):
         return {k: _norm(v) for k, v in x.items()}
+    if isinstance(x, RNode):
+        return ("RNode", _norm(x.v), _norm(x.kids))
     return (type(x).__name__, x) if not isinstance(x, Model) else ("Model", _norm(x.a))
 
 
@@ -280,16 +328,24 @@ def impl_trace(recipe, req, direction, retort_factory=None):
 
 def ref_trace(recipe, req, direction):
     out = RefResult()
-    stages = ref_serve(recipe, req, 0, out)
+    try:
+        stages = ref_serve(recipe, req, 0, out)
+    except _RefCannotProvide:
+        return out, {"consults": out.consults, "create_error": "ProviderNotFoundError"}, []
     calls = []
     try:
-        result = ("ok", _norm(ref_run(stages, DATA[direction][req], direction, calls)))
+        result = ("ok", _norm(ref_run(stages, DATA[direction][req], direction, calls, out.stages_at)))
     except _RefReject:
         result = ("exc", "LoadError")
     return out, {"consults": out.consults, "calls": calls, "result": result, "late_consults": []}, stages
 
 
 def compare(recipe, req, direction, report, part="recipe", retort_factory=None):
+    if req == "U" and any(MATCH[p]["U"] for p, _ in recipe):
+        # the hint cannot be normalised: only the catch-all predicates match it, and what a provider does with a request it
+        # chains to nowhere is not modelled
+        report.skip("request U (unresolvable forward reference) with a catch-all predicate in the recipe")
+        return None
     out, ref, stages = ref_trace(recipe, req, direction)
     impl = impl_trace(recipe, req, direction, retort_factory)
     report.count("states", len(out.states))
@@ -331,6 +387,13 @@ def _combinable_repeat(recipe):
 
 
 def diff(ref, impl):
+    if "create_error" in ref:
+        if "create_error" not in impl:
+            return ("unprovidable_request_served", f"a loader/dumper was produced ({impl.get('result')}) although no provider can serve "
+                                                   f"the request (expected ProviderNotFoundError)")
+        if not impl["create_error"].startswith("ProviderNotFoundError"):
+            return ("creation_failed", f"creation failed with {impl['create_error']} instead of ProviderNotFoundError")
+        return None if impl["consults"] == ref["consults"] else ("consult_trace", f"consult trace differs: impl {impl['consults']} model {ref['consults']}")
     if "create_error" in impl:
         return ("creation_failed", f"creation failed: {impl['create_error']}")
     if impl["consults"] != ref["consults"]:
